@@ -24,7 +24,7 @@ def strategy(tier):
     def cases(draw):
         # dense competition: orthogonal roots, few event names, several transitions (with
         # different priorities) on one source
-        spec = draw(gen.charts(max_states=16 if big else 12, p_sends=0.2, p_eventless=0.2,
+        spec = draw(gen.charts(max_states=16 if big else 12, p_sends=0.2, p_eventless=0.2, p_aguard=0.15,
                                dup_tr=0.3, p_orth_root=0.45, n_events=2, min_tr=6, max_tr=16))
         ops = draw(gen.histories(spec, 6, 20, n_events=2, advances=True, delays=True))
         return {'spec': spec, 'ops': ops}
